@@ -32,6 +32,9 @@ type Sched struct {
 	perOps   map[string]int
 	exec     sync.Mutex
 	disabled bool
+	// OnSwitch, if set, is called (with every client parked) whenever the
+	// schedule moves on to another segment.
+	OnSwitch func()
 }
 
 func NewSched(order []string, segs []Segment) *Sched {
@@ -75,8 +78,12 @@ func (s *Sched) skipLocked() {
 // Done tells the scheduler that the client issued its last operation.
 func (s *Sched) Done(client string) {
 	s.mu.Lock()
+	before := s.cur
 	s.done[client] = true
 	s.skipLocked()
+	if s.OnSwitch != nil && !s.disabled && s.cur != before {
+		s.OnSwitch()
+	}
 	s.cond.Broadcast()
 	s.mu.Unlock()
 }
@@ -104,7 +111,11 @@ func (s *Sched) Enter(client string, op Op) func() {
 		s.perOps[client]++
 		if gated && s.cur < len(s.segs) && s.segs[s.cur].Client == client && s.left > 0 {
 			s.left--
+			before := s.cur
 			s.skipLocked()
+			if s.OnSwitch != nil && s.cur != before {
+				s.OnSwitch()
+			}
 			s.cond.Broadcast()
 		}
 		s.mu.Unlock()
